@@ -2,7 +2,7 @@
 
 import math
 
-from kernel.type import RealType
+from kernel.type import NatType, RealType
 from kernel.term import Term, Var, Lambda, Inst, Nat, Real, Eq
 from kernel.thm import Thm
 from kernel.proofterm import ProofTerm, TacticException
@@ -53,20 +53,20 @@ def eval_hol_expr(t: Term):
 
     return res
 
-def eval_inequality_expr(t):
-    """Evaluate inequality."""
+def eval_inequality_expr(t, ev=eval_hol_expr):
+    """Evaluate inequality. The two sides are evaluated using ev."""
     if t.is_equals():
-        return eval_hol_expr(t.arg1) == eval_hol_expr(t.arg)
+        return ev(t.arg1) == ev(t.arg)
     elif t.is_not() and t.arg.is_equals():
-        return eval_hol_expr(t.arg.arg1) != eval_hol_expr(t.arg.arg)
+        return ev(t.arg.arg1) != ev(t.arg.arg)
     elif t.is_greater_eq():
-        return eval_hol_expr(t.arg1) >= eval_hol_expr(t.arg)
+        return ev(t.arg1) >= ev(t.arg)
     elif t.is_greater():
-        return eval_hol_expr(t.arg1) > eval_hol_expr(t.arg)
+        return ev(t.arg1) > ev(t.arg)
     elif t.is_less_eq():
-        return eval_hol_expr(t.arg1) <= eval_hol_expr(t.arg)
+        return ev(t.arg1) <= ev(t.arg)
     elif t.is_less():
-        return eval_hol_expr(t.arg1) < eval_hol_expr(t.arg)
+        return ev(t.arg1) < ev(t.arg)
     else:
         raise NotImplementedError
 
@@ -206,8 +206,18 @@ class ConstInequalityMacro(Macro):
 
     def can_eval(self, goal, prevs):
         if len(prevs) == 0:
-            res = eval_inequality_expr(goal)
-            return res
+            # Evaluate the two sides with the arithmetic of their own type
+            # (subtraction on natural numbers is truncated).
+            t = goal.arg if goal.is_not() else goal
+            if not (t.is_equals() or t.is_compares()):
+                return False
+            T = t.arg1.get_type()
+            if T == RealType:
+                return eval_inequality_expr(goal)
+            elif T == NatType:
+                return eval_inequality_expr(goal, nat.nat_eval)
+            else:
+                return False
         else:
             return False
 
